@@ -8,6 +8,7 @@ package c15
 import (
 	"fmt"
 	"math/big"
+	"os"
 	"strings"
 	"time"
 
@@ -1007,7 +1008,20 @@ func Run(ctx *common.Ctx) {
 	// common.NewRng(seed) steps by the same constant it multiplies the seed with, so the streams of seeds
 	// 1, 2, 3 ... are shifts of one another; re-seeding from an output of the stream separates them
 	g := &gen{ctx: ctx, r: common.NewRng(ctx.Rng.Next())}
-	tables := writeTables(ctx)
+	tables, translatorProblem := writeTables(ctx)
+	if translatorProblem != "" {
+		// the model cannot be instantiated (Tables.v says why and does not compile: a violation without a failing input).
+		// Search for a failing input all the same: the implementation against the specification tables; the generated
+		// control strings below are still run for the checks made on the implementation alone (destinations, arguments
+		// unchanged, ~A / ~S against princ / prin1), but no correspondence files are written.
+		fmt.Fprintln(os.Stderr, translatorProblem)
+		ctx.Meta.Notes = append(ctx.Meta.Notes, translatorProblem+" -- no correspondence with the model on this run; specification sweep instead")
+		if ctx.Meta.Extra == nil {
+			ctx.Meta.Extra = map[string]any{}
+		}
+		ctx.Meta.Extra["table_suspects"] = []string{translatorProblem}
+		specSweep(ctx)
+	}
 	nInt, nWords, nFlow, nAS, nPrint := 1000, 400, 2400, 300, 250
 	if ctx.Thorough() {
 		nInt, nWords, nFlow, nAS, nPrint = 12000, 6000, 24000, 3000, 3000
@@ -1147,6 +1161,8 @@ func Run(ctx *common.Ctx) {
 		"Definition in_guard := Eval vm_compute in guard_count gen_tables cases.\nPrint in_guard.\n" +
 		"Definition meets_spec := Eval vm_compute in meets_spec_count cases.\nPrint meets_spec.\n" +
 		"Definition no_verdict := Eval vm_compute in no_verdict_count gen_tables cases.\nPrint no_verdict.\n"
-	ctx.WriteShards("cases", header, "case", footer, terms, descs, 16)
+	if translatorProblem == "" {
+		ctx.WriteShards("cases", header, "case", footer, terms, descs, 16)
+	}
 	ctx.ReplayKnownLisp()
 }
